@@ -19,6 +19,14 @@ CHECKS = {
    text="static side: every slice pair of the alphabet for which MatchField.tla permits a copy (identical, assignable, convertible element types, defined slice types) must be emitted as a permitted fresh-copy shape (SliceNeverAssigned on the model)",
    note="the run-time side (aliasing, nil stays nil) is decided by trace validation of executed generated functions (GenExec) once registered; until then the shape of the emitted statement is what is judged",
    tech="TLA+ ladder model checked by TLC; emitted slice statements of TLC-enumerated cases compared with the permitted shapes"),
+ "C08": dict(cat="model_checking", sec="6 C08",
+   text="spec/Signature.tla computes the header (or reject) for the complete product of style x recv x reverse x pointer-ness x error x 0..3 additional arguments x named/unnamed x imported operands (2048 combinations); TLC checks the documented table as invariants (SrcOrRecvFirst, DstPlace, ArgsInOrder, ErrLast, NamesPreserved, IllegalRejected); every combination is run through the tool and the generated header is compared name by name and type by type",
+   note="exhaustive over the stated product in both tiers; type expressions are compared as written in the generated file",
+   tech="TLA+ signature model exhausted by TLC; every case replayed through the real tool and compared on the parsed function header"),
+ "C10": dict(cat="model_checking", sec="6 C10",
+   text="static side: spec/Hooks.tla decides fit/reject and the emitted call for method shape x hook shape (5248 combinations incl. arity 0/1, operand mismatch, wrong results, unexported imported hook, missing, extra parameters none/all/fewer/wrong); TLC checks UnfitRejected, AdaptSound, OperandOrder, ErrNeedsErrResult on the model; every case is run through the tool and the call, its error check and its position relative to allocation and assignments are compared",
+   note="the run-time side (exactly once, operands really shared, snapshots at call time) is decided by trace validation of executed generated functions (GenExec) once registered",
+   tech="TLA+ hook-fit model exhausted by TLC; every case replayed through the real tool and compared on the projected call"),
  "C12": dict(cat="model_checking", sec="6 C12",
    text="spec/CLI.tla models the files a run can see or touch; TLC checks Regenerated/ExitIgnoresOut/Idempotent on the model and enumerates every transition; every run transition from a state whose output path holds content (older output, truncated at a point, broken, ill-typed) is materialised and executed with the real binary next to its emptied twin; a crash sweep covers truncation offsets of the reference output; seeded TLC walks are replayed step by step",
    note="trusts TLC and the projection of the directory tree; reference bytes are the tool's own output on an empty path (the property's definition); thorough sweeps every byte offset",
